@@ -147,15 +147,31 @@ def render(rng, entries, blanks=True):
 
 
 def xml_text(rng, entries):
-    """(xml document, [(line-1 text, line-2 text)] as ElementTree will return them)"""
+    """(xml document, [(line-1 text, line-2 text)] as ElementTree will return them).  Entries are grouped: a
+    <two-line-elements> block may hold several <navigation> elements, a <message> several blocks."""
     s = ['<?xml version="1.0" encoding="UTF-8"?>', "<multi-mission-administrative-message>"]
     items = []
-    for e in entries:
-        t1 = e["l1"] + (" " if rng.random() < 0.1 else "")
-        t2 = e["l2"]
-        items.append([t1, t2])
-        s += ["<message>", "<two-line-elements>", "<navigation>", "<line-1>" + t1 + "</line-1>",
-              "<line-2>" + t2 + "</line-2>", "</navigation>", "</two-line-elements>", "</message>"]
+    k = 0
+    n = len(entries)
+    while k < n:
+        per_message = rng.choice([1, 1, 2, 3])
+        s.append("<message>")
+        for _ in range(per_message):
+            if k >= n:
+                break
+            per_block = rng.choice([1, 1, 2, 3])
+            s.append("<two-line-elements>")
+            for _ in range(per_block):
+                if k >= n:
+                    break
+                e = entries[k]
+                k += 1
+                t1 = e["l1"] + (" " if rng.random() < 0.1 else "")
+                t2 = e["l2"]
+                items.append([t1, t2])
+                s += ["<navigation>", "<line-1>" + t1 + "</line-1>", "<line-2>" + t2 + "</line-2>", "</navigation>"]
+            s.append("</two-line-elements>")
+        s.append("</message>")
     s += ["</multi-mission-administrative-message>"]
     return rng.choice(["\n", "\r\n"]).join(s), items
 
